@@ -3,6 +3,7 @@ package operator
 import (
 	"context"
 
+	"google.golang.org/protobuf/types/known/timestamppb"
 	"reduction.dev/reduction/batching"
 	"reduction.dev/reduction/clocks"
 	"reduction.dev/reduction/proto/jobpb"
@@ -90,4 +91,71 @@ func handlerCallOf(h *verifSumHandler, tag int) int {
 		}
 	}
 	return -1
+}
+
+// Harness_C11_Redeploy: an operator that has been told advanced watermarks is redeployed in the
+// same process (HandleDeploy again, possibly with new source runners). Every upstream of the
+// new deployment counts as the epoch until it reports: a batch handled before any watermark
+// message of the new deployment must be told nothing later than the epoch, and afterwards the minimum over the
+// new upstreams' reports - for arbitrary watermark values.
+func Harness_C11_Redeploy() {
+	verif.FixedRand(3, 1, 4, 1, 5, 9, 2, 6)
+	verif.Abstract("bloom.Filter")
+	job := &verifJob{}
+	handler := &verifSumHandler{}
+	ctx, cancel := context.WithCancel(context.Background())
+	defer cancel()
+	op := NewOperator(NewOperatorParams{ID: "op1", Host: "h", Job: job, UserHandler: handler,
+		EventBatching: batching.EventBatcherParams{MaxSize: 1}, Clock: clocks.NewFrozenClock()})
+	go op.Start(ctx)
+	verif.Quiesce()
+	deploy := func(runners []string) {
+		err := op.HandleDeploy(ctx, &workerpb.DeployOperatorRequest{
+			Operators:       []*jobpb.NodeIdentity{{Id: "op1", Host: "h"}},
+			SourceRunnerIds: runners,
+			KeyGroupCount:   4,
+			StorageLocation: "memory:///w",
+		}, verifSink{})
+		verif.Assert(err == nil, "deploy-succeeds")
+	}
+	wmEvent := func(sec int64) *workerpb.Event {
+		return &workerpb.Event{Event: &workerpb.Event_Watermark{Watermark: &workerpb.Watermark{Timestamp: &timestamppb.Timestamp{Seconds: sec}}}}
+	}
+	told := func(sender string, tag int) *timestamppb.Timestamp {
+		before := len(handler.watermark)
+		verif.Assert(op.HandleEvent(ctx, sender, verifKeyed([]byte("k1"), []byte{1}, tag)) == nil, "event-handled")
+		verif.Assert(len(handler.watermark) == before+1, "handler-invoked")
+		if len(handler.watermark) != before+1 {
+			return nil
+		}
+		return handler.watermark[before]
+	}
+	deploy([]string{"s1", "s2"})
+	w1, w2 := verif.I64("w1"), verif.I64("w2")
+	verif.Assume(verif.And(verif.And(w1 >= 1, w1 <= 1000), verif.And(w2 >= 1, w2 <= 1000)))
+	verif.Assert(op.HandleEvent(ctx, "s1", wmEvent(w1)) == nil, "watermark-handled")
+	verif.Assert(op.HandleEvent(ctx, "s2", wmEvent(w2)) == nil, "watermark-handled")
+	if got := told("s1", 0); got != nil {
+		verif.Assert(got.GetSeconds() == verif.IteI64(w1 < w2, w1, w2), "handler-told-the-minimum-upstream-watermark")
+	}
+
+	runners := [][]string{{"s1", "s2"}, {"s3", "s4"}}[verif.Choose("new-upstreams", 2)]
+	deploy(runners)
+	if got := told(runners[0], 1); got != nil {
+		// (the registry starts at Go's zero time, which is before the epoch: never later than it)
+		verif.Assert(got.GetSeconds() <= 0, "handler-told-nothing-later-than-the-epoch-before-the-new-upstreams-report")
+	}
+	w3 := verif.I64("w3")
+	verif.Assume(verif.And(w3 >= 1, w3 <= 1000))
+	verif.Assert(op.HandleEvent(ctx, runners[0], wmEvent(w3)) == nil, "watermark-handled")
+	if got := told(runners[0], 2); got != nil {
+		verif.Assert(got.GetSeconds() == 0, "unreported-upstream-still-counts-as-the-epoch")
+	}
+	w4 := verif.I64("w4")
+	verif.Assume(verif.And(w4 >= 1, w4 <= 1000))
+	verif.Assert(op.HandleEvent(ctx, runners[1], wmEvent(w4)) == nil, "watermark-handled")
+	if got := told(runners[1], 3); got != nil {
+		verif.Assert(got.GetSeconds() == verif.IteI64(w3 < w4, w3, w4), "handler-told-the-minimum-upstream-watermark")
+	}
+	verif.Reached()
 }
